@@ -112,6 +112,7 @@ class C07(Harness):
         if cell["withX"]:
             inp["x"] = fresh_reals(ctx, "x", nn)
         inp["return_data"] = bool(ctx.fresh_bool("return_data"))
+        inp["prefitted"] = bool(ctx.fresh_bool("prefitted"))  # the forecaster handed to evaluate() was fitted on the whole series before
         return inp
 
     def scenario(self, W, inp, cell):
@@ -133,8 +134,12 @@ class C07(Harness):
         log = []
         Rec = make_recorder(W, log)
         sc = make_score(W)
+        fc = Rec()
+        if inp.get("prefitted"):
+            fc.fit(y, X)
+            del log[:]
         try:
-            res = ev.evaluate(Rec(), cv, y, X, strategy=cell["strategy"], scoring=sc, return_data=inp["return_data"])
+            res = ev.evaluate(fc, cv, y, X, strategy=cell["strategy"], scoring=sc, return_data=inp["return_data"])
         except ValueError:
             return {"rejected": True}
         splits = [[L(a), L(b)] for a, b in cv.split(y)]
